@@ -21,7 +21,23 @@ PROPS = {
 
 HOOK_COMMITS = []
 NOT_APPLICABLE = {}
-PROPS["C17"] = {"contracts": ["c17_min_iri"], "level": "other", "explanation": "wip"}
-PROPS["C11"] = {"contracts": ["c11_shacl"], "level": "other", "explanation": "wip"}
-PROPS["C10"] = {"contracts": ["instances"], "level": "other", "explanation": "wip"}
-PROPS["C16"] = {"contracts": ["instances"], "level": "other", "explanation": "wip"}
+
+MON = "bounded: run-time monitor of the composed pipeline against the oracle of lib/graphspec.py on enumerated small graphs + seeded random graphs (labelled bounded, never counted as proved)"
+
+def _p(pid, contracts, bounded, explanation, level="other", **kw):
+    d = {"contracts": contracts, "bounded": bounded, "level": level, "explanation": explanation}
+    d.update(kw); PROPS[pid] = d
+
+_p("C17", ["c17_min_iri"], [], "longest_common_prefix (loop invariant, maximality), one step of the fold over instances and its frame are proved; "
+   "the cut back to a separator (_determine_suitable_iri_pattern uses a reversed string and a regex) and the examples bookkeeping are bounded stand-ins.")
+_p("C11", ["c11_shacl"], [], "Both serializers are verified against one reference table (cardinality -> min/max, statement type -> value restriction, direction -> path) "
+   "with an effect-trace contract on every triple handed to rdflib.Graph.add; the loops over shapes/statements and rdflib itself are assumed/bounded.")
+_p("C10", ["instances"], ["pipeline"], "Relevance tests and the per-triple step of pass 1 are proved with whole-view frames (node -> classes dictionary as a shared heap cell); "
+   "selector parsing / SPARQL evaluation and the stream-level composition are covered by the " + MON)
+_p("C16", ["instances"], ["pipeline"], "Counter invariant of the instance cap (every class counter <= limit, rejected exactly when full, early stop only when all target classes are full) is proved per step; "
+   "namespace filter and composition: " + MON)
+for pid in ("C01", "C02", "C09", "C12", "C13", "C14"):
+    _p(pid, [], ["pipeline"], MON)
+
+HOOK_COMMITS = []
+NOT_APPLICABLE = {}
